@@ -618,6 +618,11 @@ def run_case(H, ex, case):
         for v in vals:
             for fld in ('fam', 'face'):
                 ex.assume(z3.And(z3.UGE(v[fld], 0x20), z3.ULT(v[fld], 0x7f)))
+    if kind == 'OptionalCFrame':
+        for v, pres in zip(vals, opts['present']):
+            for j in range(9):
+                e = z3.Extract(30, 23, v['m%d' % j])
+                ex.assume(z3.And(z3.UGE(e, 128), z3.ULT(e, 255)))
     if kind == 'CFrame':
         # general matrices only (rotation id 0): entries away from the 24 basic rotations (|x| >= 2), the snap is K4's subject
         opts['rot'] = [0] * n
@@ -630,8 +635,13 @@ def run_case(H, ex, case):
     if kind == 'String':
         # written from a Variant::String holding UTF-8 text (read back as BinaryString for an unknown property)
         for i in range(n):
+            if opts['len'][i] > 64:
+                # long strings: only the length matters here; concrete ASCII content keeps the path condition small
+                for j in range(opts['len'][i]):
+                    vals[i]['b%d' % j] = z3.BitVecVal(0x61 + j % 26, 8)
             bs = [Sc(vals[i]['b%d' % j], 'u8') for j in range(opts['len'][i])]
-            ex.assume(iomodels.utf8_valid(bs))
+            if opts['len'][i] <= 64:
+                ex.assume(iomodels.utf8_valid(bs))
             values[i] = Enum('Variant', 'String', [StrV(bs, None)])
     classes = ['DataModel'] + [case.get('cls', 'A')] * n
     shape = [-1] + [0] * n
@@ -700,8 +710,11 @@ def run_case(H, ex, case):
         want_tid = Bc.PROP_TYPES[kind]
         if tid != want_tid:
             raise Violation('C03.prop[ser_%s]: property P is written with type id 0x%02x, docs/binary.md gives %s the id 0x%02x' % (kind, tid, kind, want_tid))
-        spec = Bc.spec_prop_values(kind, vals, opts)
-        if len(vbytes) != len(spec):
+        if kind in Bc.NOSPEC:
+            spec = None
+        else:
+            spec = Bc.spec_prop_values(kind, vals, opts)
+        if spec is not None and len(vbytes) != len(spec):
             raise Violation('C03.prop[ser_%s]: Values section has %d bytes, the specification gives %d' % (kind, len(vbytes), len(spec)))
         if missing and spec:
             # the value written for an instance without the property is some constant default: find it, then the column must be
@@ -779,6 +792,10 @@ def explore(prog, case, stats=None, max_paths=20000, budget_s=600, max_viol=4, m
         ex = Exec(prog, M, dec, stats)
         ex.world = World()
         ex.range_limit = case.get('range_limit', 64)
+        if ex.range_limit > 64:
+            import sys as _sys
+            _sys.setrecursionlimit(max(_sys.getrecursionlimit(), 60 * ex.range_limit))
+        ex.max_steps = max(ex.max_steps, 800 * ex.range_limit)
         try:
             r = run_case(H, ex, case)
             res['paths'] += 1
@@ -853,6 +870,12 @@ def value_json(kind, v, opts, i, ev):
         return kind, [g('t', 'v', 'e')] * opts['len'][i]
     if kind == 'ColorSequence':
         return kind, [g('t', 'r', 'g', 'b')] * opts['len'][i]
+    if kind == 'UniqueId':
+        return kind, [ev(v['index']), ev(v['time']), sg(v['random'])]
+    if kind == 'SecurityCapabilities':
+        return kind, ev(v['v'])
+    if kind == 'OptionalCFrame':
+        return kind, (g('px', 'py', 'pz', *['m%d' % j for j in range(9)]) if opts['present'][i] else None)
     if kind == 'Font':
         return kind, [opts['weight'][i], opts['style'][i], [ev(v['fam'])], ([ev(v['face'])] if opts['face'][i] else None)]
     if kind == 'CFrame':
@@ -870,6 +893,8 @@ def confirm(H, ex, case, label):
         return confirm_cols(H, ex, case, label)
     if case['what'] == 'sstr':
         return confirm_sstr(H, ex, case, label)
+    if case['what'] == 'det':
+        return confirm_det(H, ex, case, label)
     if ex.solver.check() != z3.sat or not getattr(ex, 'ser_case', None):
         return False, None, 'no model / case state for a replay'
     m = ex.solver.model()
@@ -1022,3 +1047,30 @@ def confirm_sstr(H, ex, case, label):
         ok, detail = got != want, 'native: read back %s, written %s' % (json.dumps(got)[:150], json.dumps(want)[:150])
     json.dump(dict(property=label.split('.')[0], label=label, input=spec, native=out[-1200:], confirmed=ok, detail=detail, how='tools/replayer bytes binary-encode %s' % inp), open(path, 'w'), indent=1)
     return ok, path, detail
+
+
+def confirm_det(H, ex, case, label):
+    """native: the same concrete DOM through tools/replayer bytes binary-det (write, write with reversed property lists, load + save)"""
+    import hashlib
+    from .. import common as C, gen
+    shape, classes = list(case['shape']), list(case['classes'])
+    nodes = []
+    for i in range(1, len(shape)):
+        nodes.append({'class': classes[i], 'parent': (shape[i] - 1) if shape[i] > 0 else None, 'props': [[pn, kind, nums] for pn, kind, nums in case['props'].get(i, [])]})
+    spec = {'db': Bc.db_json(case.get('db')), 'nodes': nodes}
+    os.makedirs(C.REPLAYS, exist_ok=True)
+    tag = hashlib.sha256(json.dumps(spec, sort_keys=True).encode()).hexdigest()[:10]
+    inp = os.path.join(C.REPLAYS, 'C07_det_%s.input.json' % tag)
+    json.dump(spec, open(inp, 'w'))
+    rc, out, _ = C.run([gen.tool('replayer'), 'bytes', 'binary-det', inp], timeout=60)
+    path = os.path.join(C.REPLAYS, 'C07_det_%s.json' % tag)
+    try:
+        r = json.loads(out.strip().split('\n')[-1]) if 'PANIC' not in out else None
+    except Exception:
+        r = None
+    ok = 'PANIC' in out or (r is not None and (not r.get('resave_equal') or not r.get('reversed_equal') or r.get('first_err')))
+    if r is not None and 'first' in r and getattr(ex, 'det_bytes', None) is not None and not ok:
+        ok = bytes.fromhex(r['first']) != ex.det_bytes and 'order' in label
+    detail = 'native: %s' % ({k: v for k, v in (r or {}).items() if k != 'first'} or out.strip()[-200:])
+    json.dump(dict(property='C07', label=label, input=spec, native=out[-800:], confirmed=bool(ok), detail=detail, how='tools/replayer bytes binary-det %s' % inp), open(path, 'w'), indent=1)
+    return bool(ok), path, detail
